@@ -9,11 +9,15 @@ PTR == 8  ARGMIN == 131072  STKCAP == 6291456  STRMAX == 131072
 K == INSTANCE KernelExec
 
 Rlim(in) == IF in.rlim = 0 THEN 2000000000 ELSE in.rlim
-TooLong(in) == \E g \in DOMAIN in.groups : in.groups[g].count > 0 /\ in.groups[g].len + 1 > STRMAX
+\* with -I the argument handed to exec is the initial argument after the substitution: a prefix and the item, `times` times
+HasRepl(in) == "repl" \in DOMAIN in
+ArgLen(in, len) == IF HasRepl(in) THEN in.repl.pre + in.repl.times * len ELSE len
+TooLong(in) == \E g \in DOMAIN in.groups : in.groups[g].count > 0 /\ ArgLen(in, in.groups[g].len) + 1 > STRMAX
 EnvCost(in) == in.env.count * (in.env.size + 9 + PTR)
 \* the fixed initial arguments are part of every command line
 InitCost(in) == IF "init" \in DOMAIN in THEN in.init.count * (in.init.len + 1 + PTR) ELSE 0
-MaybeUnfit(in) == \E g \in DOMAIN in.groups : in.groups[g].count > 0 /\ in.groups[g].len + 20000 + EnvCost(in) + InitCost(in) > K!KLimit(Rlim(in))
+CmdPath(in) == IF "cmdpath" \in DOMAIN in THEN 2 * in.cmdpath.len ELSE 0
+MaybeUnfit(in) == \E g \in DOMAIN in.groups : in.groups[g].count > 0 /\ ArgLen(in, in.groups[g].len) + CmdPath(in) + 20000 + EnvCost(in) + InitCost(in) > K!KLimit(Rlim(in))
 Total(in) == SumSeq([g \in DOMAIN in.groups |-> in.groups[g].count])
 
 \* the harness could not even start xargs with this environment under this stack limit: nothing to judge
